@@ -1,3 +1,278 @@
-/-! Model for property C19 (core Lean only; no Mathlib). -/
+/-! Model for property C19 (core Lean only; no Mathlib): the *index logic* of the special-topology
+constructors, of `TTNO.from_tensor` and of the Ising model builders.
+
+* `nnPairs`            ↔ `_find_nn_pairs(_grid_from_structure(prefix, rows, cols))`
+                         (`pytreenet/operators/models.py`); a cell `(i, j)` stands for `f"{prefix}{i}_{j}"`.
+* `addChild`           ↔ `TreeTensorNetwork.add_child_to_parent` (leg order bookkeeping of
+                         `Node.open_leg_to_parent` / `open_leg_to_child`, with their checks)
+* `attachLeft/Right`   ↔ `MatrixProductTree.attach_node_left_end / attach_node_right_end`
+* `fromTensorList`, `leftmost` ↔ `MatrixProductTree.from_tensor_list`,
+                         `from_tensor_list_leftmost_node_is_root` (`pytreenet/special_ttn/mps.py`)
+* `nearestNeighbours`, `singleSiteTerms`, `nnTerms`, `isingTree`, `isingPairs`, `isingGrid`
+                       ↔ `TreeStructure.nearest_neighbours`, `single_site_operators` /
+                         `create_single_site_hamiltonian`, `create_nearest_neighbour_hamiltonian`,
+                         `_abstract_ising_model` with `_get_ham_objects` (factor `(-1, symbol)`),
+                         `_abstract_2D_ising`
+* `qrShape`, `fromTensor` ↔ `TTNO._get_qr_decomposition_shape`, `TTNO.from_tensor` /
+                         `_from_tensor_rec` (which legs go where; the factorisation itself is external).
+
+Tensors are not modelled by value: a tensor is the list of its legs (`legs`), each leg named by the axis
+of the *input* tensor it came from (or by the bond a factorisation created). -/
 namespace Ptn.C19
+
+/-! ## 1. Grid neighbour pairs -/
+
+abbrev Cell := Nat × Nat
+
+/-- Body of the double loop of `_find_nn_pairs` for the cell `(i, j)`. -/
+def cellPairs (rows cols i j : Nat) : List (Cell × Cell) :=
+  (if i < rows - 1 then [((i, j), (i + 1, j))] else []) ++
+  (if j < cols - 1 then [((i, j), (i, j + 1))] else [])
+
+/-- `_find_nn_pairs` on the grid of `_grid_from_structure`. -/
+def nnPairs (rows cols : Nat) : List (Cell × Cell) :=
+  (List.range rows).flatMap fun i => (List.range cols).flatMap fun j => cellPairs rows cols i j
+
+/-! ## 2. Matrix-product chain -/
+
+/-- A node of the network under construction: `legs` is the logical leg order
+    (`parent, children…, open…`), every entry being an axis of the tensor handed in. -/
+structure MNode where
+  id : Nat
+  parent : Option Nat
+  children : List Nat
+  legs : List Nat
+deriving Repr, DecidableEq
+
+def MNode.nvirt (x : MNode) : Nat := (if x.parent.isSome then 1 else 0) + x.children.length
+
+/-- The tree under construction: `nodes` in dict (insertion) order, the root identifier and the two
+    bookkeeping lists of `MatrixProductTree`. -/
+structure MPT where
+  nodes : List MNode
+  root : Nat
+  left : List Nat
+  right : List Nat
+deriving Repr, DecidableEq
+
+/-- `value = perm.pop(src); perm.insert(dst, value)` -/
+def popInsert (l : List Nat) (src dst : Nat) : List Nat :=
+  match l[src]? with
+  | none => l
+  | some v => (l.eraseIdx src).insertIdx dst v
+
+def MPT.find (st : MPT) (i : Nat) : Option MNode := st.nodes.find? (fun x => x.id == i)
+
+def addRoot (i nlegs : Nat) : MPT := ⟨[⟨i, none, [], List.range nlegs⟩], i, [], []⟩
+
+/-- What `open_leg_to_child` does to the parent. -/
+def MNode.toChild (p : MNode) (cid parentLeg : Nat) : MNode :=
+  { p with legs := popInsert p.legs parentLeg p.nvirt, children := p.children ++ [cid] }
+
+/-- `add_child_to_parent(Node(cid), tensor with nlegs legs, childLeg, pid, parentLeg)`; `none` when the
+    library raises (unknown parent, duplicate identifier, leg out of range or not open). -/
+def addChild (st : MPT) (cid nlegs childLeg pid parentLeg : Nat) : Option MPT :=
+  match st.find pid with
+  | none => none
+  | some p =>
+    if (st.find cid).isSome then none
+    else if nlegs ≤ childLeg then none
+    else if parentLeg < p.nvirt ∨ p.legs.length ≤ parentLeg then none
+    else
+      let child : MNode := ⟨cid, some pid, [], popInsert (List.range nlegs) childLeg 0⟩
+      some { st with nodes := (st.nodes.map fun x => if x.id == pid then x.toChild cid parentLeg else x)
+                               ++ [child] }
+
+/-- Number of legs of the `i`-th input tensor of a chain of `n` sites: `[left, right, open…]`, the first
+    site has no left leg, the last no right leg; `p i` open legs. -/
+def nlegsIn (n : Nat) (p : Nat → Nat) (i : Nat) : Nat :=
+  (if 0 < i then 1 else 0) + (if i + 1 < n then 1 else 0) + p i
+
+def attachRight (st : MPT) (i nlegs : Nat) : Option MPT :=
+  let pid := match st.right.getLast? with
+    | none => st.root
+    | some x => x
+  (addChild st i nlegs 0 pid 1).map fun s => { s with right := s.right ++ [i] }
+
+def attachLeft (st : MPT) (i nlegs : Nat) (final : Bool) : Option MPT :=
+  let tgt : Option (Nat × Nat) := match st.left.head? with
+    | none => (st.find st.root).map fun rt => (st.root, rt.children.length)
+    | some x => some (x, 1)
+  match tgt with
+  | none => none
+  | some (pid, pleg) =>
+    (addChild st i nlegs (if final then 0 else 1) pid pleg).map fun s => { s with left := i :: s.left }
+
+/-- `from_tensor_list_leftmost_node_is_root` -/
+def leftmost (n : Nat) (p : Nat → Nat) : Option MPT :=
+  if n = 0 then none else
+  let st0 := addRoot 0 (nlegsIn n p 0)
+  let st1 : Option MPT :=
+    if 1 < n then (addChild st0 1 (nlegsIn n p 1) 0 0 0).map fun s => { s with right := s.right ++ [1] }
+    else some st0
+  (List.range (n - 2)).foldl
+    (fun acc i => acc.bind fun st => attachRight st (i + 2) (nlegsIn n p (i + 2))) st1
+
+/-- `from_tensor_list(tensor_list, root_site = r)` for `n` tensors. -/
+def fromTensorList (n r : Nat) (p : Nat → Nat) : Option MPT :=
+  if n ≤ r then none
+  else if r = 0 then leftmost n p
+  else
+    let st0 := addRoot r (nlegsIn n p r)
+    let st1 := (List.range r).foldl
+      (fun acc i => acc.bind fun st =>
+        let site := r - 1 - i
+        attachLeft st site (nlegsIn n p site) (site == 0)) (some st0)
+    (List.range (n - r - 1)).foldl
+      (fun acc i => acc.bind fun st =>
+        let site := r + 1 + i
+        attachRight st site (nlegsIn n p site)) st1
+
+/-- Name of axis `a` of the `i`-th input tensor. -/
+inductive Axis where
+  | left | right | phys (k : Nat)
+deriving Repr, DecidableEq
+
+def axisName (n i a : Nat) : Axis :=
+  if 0 < i ∧ i + 1 < n then (if a = 0 then .left else if a = 1 then .right else .phys (a - 2))
+  else if 0 < i then (if a = 0 then .left else .phys (a - 1))
+  else if i + 1 < n then (if a = 0 then .right else .phys (a - 1))
+  else .phys a
+
+/-! ## 3. Ising term lists -/
+
+inductive Sym where
+  | extMagn | coupling
+deriving Repr, DecidableEq
+
+/-- `A` is the nearest-neighbour operator, `B` the field operator (`X`/`Z` for the Ising model,
+    `Z`/`X` for the flipped one). -/
+inductive Op where
+  | A | B
+deriving Repr, DecidableEq
+
+/-- One term `(Fraction, symbol, TensorProduct)`; the tensor product as its (ordered) dict items. -/
+structure Term (α : Type) where
+  coeff : Int
+  sym : Sym
+  ops : List (α × Op)
+deriving Repr, DecidableEq
+
+/-- `TreeStructure.nearest_neighbours` on the dict `(id, children)` in insertion order. -/
+def nearestNeighbours {α : Type} (flat : List (α × List α)) : List (α × α) :=
+  flat.flatMap fun x => x.2.map fun c => (x.1, c)
+
+/-- `create_single_site_hamiltonian(structure, op, factor)`: `single_site_operators` returns `{}` for a
+    zero factor. -/
+def singleSiteTerms {α : Type} (ids : List α) (factor : Int × Sym) (op : Op) : List (Term α) :=
+  if factor.1 = 0 then [] else ids.map fun i => ⟨factor.1, factor.2, [(i, op)]⟩
+
+/-- `create_nearest_neighbour_hamiltonian(pairs, op, factor)` (second operator defaults to the first). -/
+def nnTerms {α : Type} (pairs : List (α × α)) (factor : Int × Sym) (op : Op) : List (Term α) :=
+  if factor.1 = 0 then [] else pairs.map fun pr => ⟨factor.1, factor.2, [(pr.1, op), (pr.2, op)]⟩
+
+/-- `_get_ham_objects`: the factor is always `(Fraction(-1), factor_id)`. -/
+def hamFactor (s : Sym) : Int × Sym := (-1, s)
+
+/-- `_abstract_ising_model` with a `TreeStructure`. -/
+def isingTree {α : Type} (flat : List (α × List α)) : List (Term α) :=
+  singleSiteTerms (flat.map (·.1)) (hamFactor .extMagn) .B ++
+  nnTerms (nearestNeighbours flat) (hamFactor .coupling) .A
+
+/-- `list(set(..))` up to order: first occurrences. -/
+def dedup {α : Type} [DecidableEq α] : List α → List α
+  | [] => []
+  | a :: l => if a ∈ dedup l then dedup l else a :: dedup l
+
+/-- `_abstract_ising_model` with a list of neighbour pairs: the sites are those that occur in a pair
+    (in the unspecified order of a Python `set`; the model lists them by last occurrence). -/
+def isingPairs {α : Type} [DecidableEq α] (pairs : List (α × α)) : List (Term α) :=
+  singleSiteTerms (dedup (pairs.flatMap fun pr => [pr.1, pr.2])) (hamFactor .extMagn) .B ++
+  nnTerms pairs (hamFactor .coupling) .A
+
+/-- `_abstract_2D_ising((prefix, rows, cols), …)` -/
+def isingGrid (rows cols : Nat) : List (Term Cell) := isingPairs (nnPairs rows cols)
+
+/-! ## 4. `TTNO.from_tensor` -/
+
+inductive RTree where
+  | node (id : Nat) (kids : List RTree)
+deriving Repr
+
+mutual
+def RTree.size : RTree → Nat
+  | .node _ kids => 1 + RTree.sizeL kids
+def RTree.sizeL : List RTree → Nat
+  | [] => 0
+  | k :: ks => k.size + RTree.sizeL ks
+end
+
+def RTree.id : RTree → Nat
+  | .node i _ => i
+
+def RTree.kids : RTree → List RTree
+  | .node _ ks => ks
+
+mutual
+/-- `_get_qr_decomposition_shape(reference_tree, leg_dict, shape_tensor, current_id)` -/
+def qrShape (ld : Nat → List Nat) : RTree → List Nat → List Nat
+  | .node i kids, acc => ld i ++ qrShapeL ld kids acc
+def qrShapeL (ld : Nat → List Nat) : List RTree → List Nat → List Nat
+  | [], acc => acc
+  | k :: ks, acc => qrShapeL ld ks (qrShape ld k acc)
+end
+
+/-- A leg of a tensor during the recursive splitting: an axis of the dense input, or the bond created
+    when `child` was split off `parent`. -/
+inductive Leg where
+  | ax (k : Nat)
+  | bond (parent child : Nat)
+deriving Repr, DecidableEq
+
+structure FNode where
+  id : Nat
+  parent : Option Nat
+  children : List Nat
+  legs : List Leg
+deriving Repr, DecidableEq
+
+/-- One pass of the `for child_id in current_children` loop of `_from_tensor_rec` on the node `i` whose
+    tensor currently has legs `cur` and `nv` virtual legs: returns the node's legs afterwards (as read
+    back through `self.tensors[…]`, i.e. in `(parent, children, open)` order) and the legs `R` of the new
+    child (its parent leg first). -/
+def splitChild (i : Nat) (cur : List Leg) (nv : Nat) (c : RTree) : List Leg × List Leg :=
+  let nrec := 2 * c.size
+  let q := cur.take (cur.length - nrec) ++ [Leg.bond i c.id]
+  let r := Leg.bond i c.id :: cur.drop (cur.length - nrec)
+  -- add_child_to_parent(r_node, R, 0, current, Q.ndim - 1): the new bond moves behind the virtual legs
+  let q' := match q[q.length - 1]? with
+    | none => q
+    | some v => (q.eraseIdx (q.length - 1)).insertIdx nv v
+  (q', r)
+
+mutual
+/-- `_from_tensor_rec` on the subtree `t`, whose root has just been inserted with legs `legs` and parent
+    `par`: the nodes of the subtree in dict (insertion) order with their final legs. -/
+def fromTensorRec : RTree → Option Nat → List Leg → List FNode
+  | .node i kids, par, legs =>
+    let nv0 := if par.isSome then 1 else 0
+    let res := fromTensorKids i kids legs nv0
+    ⟨i, par, kids.map RTree.id, res.1⟩ :: res.2
+/-- the loop over the children: current legs of the parent, number of its virtual legs so far -/
+def fromTensorKids (i : Nat) : List RTree → List Leg → Nat → List Leg × List FNode
+  | [], cur, _ => (cur, [])
+  | c :: cs, cur, nv =>
+    let qr := splitChild i cur nv c
+    let sub := fromTensorRec c (some i) qr.2
+    let rest := fromTensorKids i cs qr.1 (nv + 1)
+    (rest.1, sub ++ rest.2)
+end
+
+/-- `TTNO.from_tensor(reference_tree, tensor, leg_dict, mode)` with `new_leg_dict[id] =
+    [leg_dict[id], half + leg_dict[id]]`. -/
+def fromTensor (t : RTree) (ld : Nat → Nat) : List FNode :=
+  let half := t.size
+  let ld2 : Nat → List Nat := fun i => [ld i, half + ld i]
+  fromTensorRec t none ((qrShape ld2 t []).map Leg.ax)
+
 end Ptn.C19
